@@ -4,7 +4,6 @@ import (
 	"bytes"
 	"context"
 	"fmt"
-	"io"
 	"net"
 	"strings"
 	"time"
@@ -26,12 +25,26 @@ func c15Write(c net.Conn, r Rng, b []byte, split bool) {
 	}
 }
 
+// c15ReadN reads n bytes with caller buffers of varying small sizes (a consumer is free to
+// read in any pieces; seeded change C15-a lost data after a short first read).
 func c15ReadN(c net.Conn, n int, d time.Duration) ([]byte, error) {
 	c.SetReadDeadline(time.Now().Add(d))
 	defer c.SetReadDeadline(time.Time{})
-	buf := make([]byte, n)
-	m, err := io.ReadFull(c, buf)
-	return buf[:m], err
+	var got []byte
+	sizes := []int{1, 3, 16, 7, 64, 2, 500}
+	for k := 0; len(got) < n; k++ {
+		sz := sizes[(k+n)%len(sizes)]
+		if sz > n-len(got) {
+			sz = n - len(got)
+		}
+		buf := make([]byte, sz)
+		m, err := c.Read(buf)
+		got = append(got, buf[:m]...)
+		if err != nil {
+			return got, err
+		}
+	}
+	return got, nil
 }
 
 func c15ReadLine(c net.Conn, d time.Duration) ([]byte, error) {
